@@ -15,6 +15,8 @@ impl<T: Types> RaftLog<T> {
     /// magnitudes assumed small: journal bytes, requests sent, cached bytes (< 2^62)
     pub open spec fn mag_ok(&self) -> bool { self.wal.mag_ok() && small(self.state_machine.payload_cache.size as int) }
     pub open spec fn sp_state(&self) -> RaftLogState<T> { self.state_machine.log_state }
+    /// J: the evictable boundary never lies above `last` (every entry appended from now on is pinned until the worker moves the boundary)
+    pub open spec fn boundary_le_last(&self) -> bool { ole(self.state_machine.payload_cache.last_evictable, self.state_machine.log_state.last) }
 }
 /// user-type law (magnitude): a payload reports fewer than 2^61 bytes
 pub open spec fn payload_small<T: Types>(p: T::LogPayload) -> bool { T::spec_payload_size(&p) < 0x2000_0000_0000_0000 }
@@ -28,3 +30,22 @@ pub open spec fn rec_arg_ok<T: Types>(rl: RaftLog<T>, rec: WALRecord<T>) -> bool
         _ => true,
     }
 }
+
+/// `BTreeMap::range(from..to)` on the index (rule E8/E7: the iterator chain of RaftLog::read is lifted; ASSUMED std contract:
+/// panics if from > to; yields the entries with from <= key < to in ascending key order)
+#[verifier::external_body]
+#[verifier::reject_recursive_types(T)]
+pub struct IndexRange<'a, T: Types> { r: &'a BTreeMap<u64, LogData<T>> }
+impl<'a, T: Types> IndexRange<'a, T> {
+    pub uninterp spec fn keys(&self) -> Seq<u64>;
+}
+#[verifier::external_body]
+pub fn btree_range<'a, T: Types>(m: &'a BTreeMap<u64, LogData<T>>, from: u64, to: u64) -> (r: IndexRange<'a, T>)
+    requires from <= to
+    ensures
+        forall|i: int, j: int| 0 <= i < j < r.keys().len() ==> r.keys()[i] < r.keys()[j],
+        forall|k: u64| r.keys().contains(k) <==> (m@.contains_key(k) && from <= k < to),
+{ unimplemented!() }
+/*+U64MAX:
+pub fn u64_max(a: u64, b: u64) -> (r: u64) ensures r == (if a >= b { a } else { b }) { if a >= b { a } else { b } }
+*/
